@@ -88,11 +88,11 @@ func c06Bridge(tier string, r *RNG, o *Out) error {
 			}
 			o2 := bridgeObs(text, copyMap(m))
 			if o1 != o2 {
-				o.Line("C06 HD %s # %s # %s | %s", hx(text), row.enc(), o1, o2)
+				o.Line("C06 HD %s # %s # %s | %s", hx(text), row.c06_enc(), o1, o2)
 				o.Count("history/DEPENDENT")
 				continue
 			}
-			o.Line("C06 B %s # %s # %s # %s", hx(text), encTop(t), row.enc(), o1)
+			o.Line("C06 B %s # %s # %s # %s", hx(text), encTop(t), row.c06_enc(), o1)
 			o.Count("bridge/rows")
 		}
 	}
@@ -171,15 +171,15 @@ func c06SQL(tier string, r *RNG, o *Out) error {
 			}
 			s2.Stop()
 			if o1 != o2 || o1 != o3 {
-				o.Line("C06 HD %s # %s # %s | %s | %s", hx(q), row.enc(), o1, o2, o3)
+				o.Line("C06 HD %s # %s # %s | %s | %s", hx(q), row.c06_enc(), o1, o2, o3)
 				o.Count("history/DEPENDENT")
 				continue
 			}
 			if isWhere {
-				o.Line("C06 H %s # %s # %s # %s", hx(text), encTop(t), row.enc(), o1)
+				o.Line("C06 H %s # %s # %s # %s", hx(text), encTop(t), row.c06_enc(), o1)
 				o.Count("sql/where")
 			} else {
-				o.Line("C06 S %s # %s # %s # %s", hx(text), encTop(t), row.enc(), o1)
+				o.Line("C06 S %s # %s # %s # %s", hx(text), encTop(t), row.c06_enc(), o1)
 				o.Count("sql/select")
 			}
 		}
@@ -266,7 +266,7 @@ func c06Diff(tier string, r *RNG, o *Out) {
 					}
 				}
 			}
-			o.Line("C06 D %s # %s # %s hand=%s bridge=%s sql=%s", hx(c), row.enc(), verdict, h1, b1, s1)
+			o.Line("C06 D %s # %s # %s hand=%s bridge=%s sql=%s", hx(c), row.c06_enc(), verdict, h1, b1, s1)
 			o.Count("diff/" + verdict)
 		}
 		s.Stop()
